@@ -41,7 +41,7 @@ NoCtx == [active |-> FALSE, sid |-> 0, key |-> "", parent |-> AbsentObj, sel |->
           prevQuiet |-> FALSE, hookOK |-> FALSE, nonBenign |-> FALSE, hook429 |-> FALSE, childFault |-> FALSE,
           statusConflict |-> FALSE, parentGone |-> FALSE, claimFail |-> FALSE, revWrites |-> 0,
           hookReq |-> [children |-> <<>>], result |-> "", parentChanged |-> FALSE, parentReqsAfterHook |-> 0,
-          store0 |-> <<>>, hookSeq |-> <<>>, okEtags |-> {}]
+          store0 |-> <<>>, hookSeq |-> <<>>, okEtags |-> {}, allOK |-> TRUE]
 
 E      == Trace[l]
 HasE   == l <= N
@@ -242,7 +242,13 @@ OwnedObs(c) == { k \in DOMAIN c.obs :
                    /\ (c.parent.ns # "" => c.obs[k].ns = c.parent.ns) }
 \* the sync got as far as reconciling children: one hook answer, accepted
 \* (scenarios that serve deliberately malformed responses are judged by C13 only)
+\* during a rolling update the hook is called once per live parent revision; the answer in force for the parent's status
+\* is the one given for the parent as it is (the latest revision; the others are asked about a patched copy)
+RespInForce(c) == IF c.nHooks = 1 THEN {c.resp}
+                  ELSE { c.hookSeq[i].resp : i \in { j \in DOMAIN c.hookSeq : c.hookSeq[j].code = 200 /\ c.hookSeq[j].parent.fields = c.parent.fields } }
 Reached(c) == c.nHooks = 1 /\ c.hookOK /\ ~c.gateBad /\ "shape" \notin DOMAIN expect
+ReachedR(c) == /\ c.nHooks >= 1 /\ (c.nHooks > 1 => AnyRolling) /\ c.allOK /\ ~c.gateBad /\ "shape" \notin DOMAIN expect
+               /\ RespInForce(c) # {}
 \* desired state already reflected by the observed object (3-way merge would be a no-op):
 \* last-applied equals desired, and every desired field/label is present with that value
 LAOf(d) == [p \in { q \in DOMAIN d.fields : TRUE } |-> d.fields[p]]
@@ -415,7 +421,7 @@ C10_StillReconciled ==
 \* C11 -- parent status = hook status + observedGeneration, nothing else
 \* =======================================================================================
 IsComposite == ~IsDecorator
-ExpStatus(c) == ("observedGeneration" :> ToString(c.hookParent.gen)) @@ c.resp.status
+ExpStatus(c) == ("observedGeneration" :> ToString(c.hookParent.gen)) @@ (CHOOSE r \in RespInForce(c) : TRUE).status
 \* rolling syncs add the Updated condition; it is excluded from the comparison there
 StatusEq(a, b) == IF AnyRolling
                   THEN \A p \in (DOMAIN a \cup DOMAIN b) :
@@ -423,9 +429,10 @@ StatusEq(a, b) == IF AnyRolling
                           \/ (p \in DOMAIN a /\ p \in DOMAIN b /\ a[p] = b[p])
                   ELSE a = b
 C11_StatusBody ==
-  (ReqE /\ IsComposite /\ IsParentReq(E, C) /\ E.verb \in {"updateStatus", "update"} /\ Accepted(E) /\ E.post.live /\ E.post.status # E.pre.status)
-  => \/ (Reached(C) /\ StatusEq(E.post.status, ExpStatus(C)))
-     \/ Report("C11", "C11_StatusBody", <<"written", E.post.status, "expected", IF Reached(C) THEN ExpStatus(C) ELSE <<>>>>)
+  (ReqE /\ IsComposite /\ IsParentReq(E, C) /\ E.verb \in {"updateStatus", "update"} /\ Accepted(E) /\ E.post.live /\ E.post.status # E.pre.status
+     /\ "shape" \notin DOMAIN expect)      \* deliberately malformed answers are judged by C13 only
+  => \/ (ReachedR(C) /\ StatusEq(E.post.status, ExpStatus(C)))
+     \/ Report("C11", "C11_StatusBody", <<"written", E.post.status, "expected", IF ReachedR(C) THEN ExpStatus(C) ELSE <<>>>>)
 C11_ViaSubresource ==
   (ReqE /\ IsComposite /\ IsParentReq(E, C) /\ E.verb = "update" /\ Accepted(E) /\ E.post.live)
   => \/ [NoStatus(E.post) EXCEPT !.fins = <<>>, !.gen = 0] = [NoStatus(E.pre) EXCEPT !.fins = <<>>, !.gen = 0]
@@ -444,7 +451,7 @@ C11_UidGuard ==
 \* when reconciling some children failed -- unless the parent is gone/replaced or the write
 \* itself met a fault or a conflict (tolerated, C12)
 C11_Written ==
-  (IsEv("SyncEnd") /\ IsComposite /\ E.a \in DOMAIN ctx /\ ctx[E.a].active /\ Reached(ctx[E.a]) /\ ~ctx[E.a].claimFail
+  (IsEv("SyncEnd") /\ IsComposite /\ E.a \in DOMAIN ctx /\ ctx[E.a].active /\ ReachedR(ctx[E.a]) /\ ~ctx[E.a].claimFail
      \* a failed ControllerRevision write aborts the sync BEFORE children are reconciled (C09): not "as far as reconciling children"
      /\ ~ctx[E.a].revFailed)
   => LET c == ctx[E.a]  live == Lookup(store, ParentKeyOf(c)) IN
@@ -754,7 +761,7 @@ Antecedents == <<
   <<"C10_DyingNoTouch", ReqE /\ Cur(C).deleting /\ (~FinOn \/ ~HasFin(Cur(C), C) \/ GCFin(Cur(C)))>>,
   <<"C11_StatusBody", ReqE /\ IsComposite /\ IsParentReq(E, C) /\ E.verb = "updateStatus" /\ Accepted(E)>>,
   <<"C11_RetryFresh", ReqE /\ IsComposite /\ IsParentReq(E, C) /\ E.verb = "updateStatus" /\ C.statusConflict>>,
-  <<"C11_Written", IsEv("SyncEnd") /\ IsComposite /\ E.a \in DOMAIN ctx /\ ctx[E.a].active /\ Reached(ctx[E.a])>>,
+  <<"C11_Written", IsEv("SyncEnd") /\ IsComposite /\ E.a \in DOMAIN ctx /\ ctx[E.a].active /\ ReachedR(ctx[E.a])>>,
   <<"C12_ErrorRequeues", IsEv("SyncEnd") /\ E.a \in DOMAIN ctx /\ ctx[E.a].active /\ (ctx[E.a].nonBenign \/ ctx[E.a].hookFail)>>,
   <<"C12_OthersProceed", IsEv("SyncEnd") /\ E.a \in DOMAIN ctx /\ ctx[E.a].active /\ ManageRan(ctx[E.a]) /\ ctx[E.a].childFault>>,
   <<"C13_RejectedNoWrites", IsEv("SyncEnd") /\ E.a \in DOMAIN ctx /\ ctx[E.a].active /\ E.result = "error" /\ ctx[E.a].nHooks > 0 /\ ~ctx[E.a].hookFail /\ ctx[E.a].failedReqs = <<>>>>,
@@ -845,6 +852,7 @@ CtxAfterHook(c, e) ==
                  !.finalizing = e.req.finalizing,
                  !.hookCode = e.code,
                  !.hookOK = (e.code = 200 /\ e.resp.wellFormed),
+                 !.allOK = @ /\ e.code = 200 /\ e.resp.wellFormed,
                  !.hookFail = @ \/ HookFailed(c, e),
                  !.okEtags = IF e.code = 200 /\ "etag" \in DOMAIN e /\ e.etag # "" THEN @ \cup {e.etag} ELSE @,
                  !.hook429 = @ \/ (e.code = 429),
